@@ -120,10 +120,11 @@ AckRev0 ==  /\ Ackable # {} /\ "rev0" \in Proofs
 RotateR == WithRotate /\ \E c \in {Pick(Chains)} : \E d \in {Pick(Chains \ {c})} : Rotate(c, d)
 
 RetoggleR == \E c \in {Pick(Chains)} : \E d \in {Pick(Chains \ {c})} : Retoggle(c, d)
+SendFakeR == \E c \in {Pick(Chains)} : \E d \in {Pick(Chains \ {c})} : \E a \in {Pick(Amts)} : SendFake(c, d, a)
 NewClientR == \E c \in {Pick(Chains)} : \E d \in {Pick(Chains \ {c})} : \E nm \in {Pick({"prefix", "ext"})} : NewClient(c, d, nm)
 
 Useful  == CommitUseful \/ UpdateUseful \/ RecvUseful \/ AckUseful \/ SendR \/ SendBackR \/ SendViaR \/ SendBadCbR \/ SendTwoR
-Hostile == SendR \/ CommitR \/ UpdateR \/ UpdateForged \/ RecvGood \/ RecvR \/ RecvDup \/ AckGood \/ AckR \/ RecvForged \/ AckForged \/ AckForgedCode \/ AckDup \/ RetoggleR \/ NewClientR \/ RecvRev0 \/ AckRev0 \/ RotateR
+Hostile == SendR \/ CommitR \/ UpdateR \/ UpdateForged \/ RecvGood \/ RecvR \/ RecvDup \/ AckGood \/ AckR \/ RecvForged \/ AckForged \/ AckForgedCode \/ AckDup \/ RetoggleR \/ NewClientR \/ SendFakeR \/ RecvRev0 \/ AckRev0 \/ RotateR
 
 MInit == Init /\ hist = << >>
 
